@@ -828,13 +828,34 @@ func (f *Frugal) UnderlyingType(t *Type) *Type {
 		if !ok {
 			return t
 		}
-		typedefIndex = parsed.typedefIndex
+		if typedef, ok := parsed.typedefIndex[t.ParamName()]; ok {
+			// The typedef lives in the include: follow the rest of the chain
+			// in the include's scope and name the result from this file.
+			return qualifyType(include, parsed.UnderlyingType(typedef.Type))
+		}
+		return t
 	}
 	if typedef, ok := typedefIndex[t.ParamName()]; ok {
 		// Recursively call underlying type to handle typedef nesting.
 		return f.UnderlyingType(typedef.Type)
 	}
 	return t
+}
+
+// qualifyType returns the given type, named in the scope of an included file,
+// as it is named by a file which includes that file under the given name.
+func qualifyType(include string, t *Type) *Type {
+	if t == nil || t.IsPrimitive() {
+		return t
+	}
+	qualified := *t
+	if t.IsContainer() {
+		qualified.KeyType = qualifyType(include, t.KeyType)
+		qualified.ValueType = qualifyType(include, t.ValueType)
+	} else if t.IncludeName() == "" {
+		qualified.Name = include + "." + t.Name
+	}
+	return &qualified
 }
 
 // ConstantFromField returns a new Constant from the given Field and value.
